@@ -170,21 +170,53 @@ func keyflowRule(c *Ctx, rule string) {
 	okLookup, n := true, 0
 	// (the lookup may sit in a function literal that eval hands to a get/compute/put helper: evalBodies; the key computed
 	// outside the literal is seen through the captured variable)
-	instrsOf(evalBodies(c, ev), func(i ssa.Instruction) {
+	bodies := evalBodies(c, ev)
+	// keyOK: v is getValueIndex(e.Column, e.Value) of eval's own receiver
+	keyOK := func(v ssa.Value) bool {
+		kc, ok := peel(v).(*ssa.Call)
+		if !ok || calleeFunc(&kc.Call) != gvi {
+			return false
+		}
+		fc, fv := srcField(kc.Call.Args[0]), srcField(kc.Call.Args[1])
+		return fc != nil && fv != nil && fc.Name() == "Column" && fv.Name() == "Value" && derivesFrom(kc.Call.Args[0], ev.Params[0]) && derivesFrom(kc.Call.Args[1], ev.Params[0])
+	}
+	instrsOf(bodies, func(i ssa.Instruction) {
 		call, ok := i.(*ssa.Call)
 		if !ok || !call.Call.IsInvoke() || call.Call.Method.Name() != getColName {
 			return
 		}
 		n++
-		kc, ok := peel(call.Call.Args[0]).(*ssa.Call)
-		if !ok || calleeFunc(&kc.Call) != gvi {
+		if !keyOK(call.Call.Args[0]) {
 			okLookup = false
+		}
+	})
+	// the lookup may sit in a helper that eval hands the index to (`loadValueBitmap(idx, valueIdx)`): the helper's key is
+	// its parameter, bound at eval's call to getValueIndex(e.Column, e.Value)
+	instrsOf(bodies, func(i ssa.Instruction) {
+		hc, ok := i.(*ssa.Call)
+		if !ok {
 			return
 		}
-		fc, fv := srcField(kc.Call.Args[0]), srcField(kc.Call.Args[1])
-		if fc == nil || fv == nil || fc.Name() != "Column" || fv.Name() != "Value" || !derivesFrom(kc.Call.Args[0], ev.Params[0]) || !derivesFrom(kc.Call.Args[1], ev.Params[0]) {
-			okLookup = false
+		h := hc.Call.StaticCallee()
+		if h == nil || h == gvi || !c.w.inModule(h) || h.Blocks == nil {
+			return
 		}
+		allInstrs(h, func(j ssa.Instruction) {
+			call, ok := j.(*ssa.Call)
+			if !ok || !call.Call.IsInvoke() || call.Call.Method.Name() != getColName {
+				return
+			}
+			n++
+			par, isPar := peel(call.Call.Args[0]).(*ssa.Parameter)
+			if !isPar {
+				okLookup = false
+				return
+			}
+			a := argFor(hc, h, par)
+			if a == nil || !keyOK(a) {
+				okLookup = false
+			}
+		})
 	})
 	c.r.check(okLookup && n > 0, rule, safeFname(ev), "looks up getValueIndex(e.Column, e.Value)", "the equality test does not look up the bitmap under getValueIndex(its column, its value)", c.w.pos(ev.Pos()))
 	// getValueIndex itself: hash of column, separator, value — both arguments must reach the hash
@@ -653,8 +685,28 @@ func nilBitmapRule(c *Ctx, rule string) {
 				return
 			}
 			// keys taken from the schema exist in the data; keys computed from the query (getValueIndex) may not
-			kc, isCall := peel(call.Call.Args[0]).(*ssa.Call)
-			if !isCall || calleeFunc(&kc.Call) != c.a.GetValueIndex {
+			fromQuery := false
+			if kc, isCall := peel(call.Call.Args[0]).(*ssa.Call); isCall && calleeFunc(&kc.Call) == c.a.GetValueIndex {
+				fromQuery = true
+			}
+			// the key may be a parameter of a lookup helper that some caller fills with getValueIndex(…)
+			if par, isPar := peel(call.Call.Args[0]).(*ssa.Parameter); isPar {
+				if node := c.w.CG.Nodes[fn]; node != nil {
+					for _, e := range node.In {
+						if e.Site == nil || e.Site.Common().StaticCallee() != fn {
+							continue
+						}
+						if sc, ok := e.Site.(*ssa.Call); ok {
+							if a := argFor(sc, fn, par); a != nil {
+								if kc, isCall := peel(a).(*ssa.Call); isCall && calleeFunc(&kc.Call) == c.a.GetValueIndex {
+									fromQuery = true
+								}
+							}
+						}
+					}
+				}
+			}
+			if !fromQuery {
 				return
 			}
 			n++
